@@ -18,6 +18,11 @@ CLASSES = {
     'g_clock': 'real', 'g_ran': 'set[any]'}, ghost=['g_clock', 'g_ran']),
 }
 
+GLOBALS = {
+  'GLOBAL_TIMER_QUEUE': dict(type='TimerQueue', assume=[
+    'allocated(GLOBAL_TIMER_QUEUE._queue) and allocated(GLOBAL_TIMER_QUEUE._event) and GLOBAL_TIMER_QUEUE._queue.g_mem != GLOBAL_TIMER_QUEUE.g_ran']),
+}
+
 PREDICATES = {
   # python's list comparison on entries; seq values are unique, so later components never decide
   'qle': (['a', 'b'], 'a.deadline < b.deadline or (a.deadline == b.deadline and a.seq <= b.seq)'),
